@@ -48,9 +48,10 @@ MANIFEST = {
     "text": "Bounded symbolic, partial: exception-freedom and termination of every repository stage over the modelled "
             "input domain, decided by CrossHair partitions (any escaping exception is a counterexample, replayed "
             "natively) plus one z3 query on the placeholder-path arithmetic. mypy/griffe/OS are excluded.",
-    "note": "Trusted: CrossHair/z3; the mypy shim validated against the real mypy on every run. Known findings: "
-            "references without module part (IndexError), private superclass of another library (LookupError), a "
-            "package class named dict/Mapping (IndexError). Five crash defects were repaired (known_findings.json).",
+    "note": "Trusted: CrossHair/z3; the mypy shim validated against the real mypy on every run. Non-termination is "
+            "observed with a time budget (10 s for calls that take milliseconds). Known findings: private superclass of "
+            "another library (LookupError), a package class named dict/Mapping (IndexError). Nine crash defects were "
+            "repaired (known_findings.json: fixed).",
     "technique": "CrossHair symbolic execution of every repository stage on a validated mypy shim / model zoo with exception-freedom as the assertion",
 }
 
